@@ -12,13 +12,11 @@ package main
 
 import (
 	"bufio"
-	"bytes"
 	"fmt"
 	"os"
 	"regexp"
 	"runtime"
 	"runtime/debug"
-	"runtime/pprof"
 	"strconv"
 	"strings"
 	"sync/atomic"
@@ -117,6 +115,7 @@ func runCase(t *target, in []byte) (r caseResult) {
 var (
 	curStart atomic.Int64 // unix nanos of the running case, 0 if none
 	curIdx   atomic.Int64
+	curSeq   atomic.Int64
 )
 
 var frameLine = regexp.MustCompile(`^([^\s].*)\(.*\)$`)
@@ -153,10 +152,11 @@ func repoFrames(dump, hdr string) []string {
 	return out
 }
 
-// watchdog: when the running case exceeds the time budget, report and exit (a
-// goroutine cannot be killed). For information only (not part of the
-// fingerprint: preemption points bias the samples) it also reports the
-// innermost repository function seen in every one of a few stack samples.
+// watchdog: when the running case exceeds the time budget, sample the
+// program with the CPU profiler for 3 s; the site is the innermost repository
+// function present in every sample of the case goroutine (the function that
+// owns the loop or the runaway call). Then report and exit: a goroutine cannot
+// be killed.
 func watchdog(budget time.Duration) {
 	for {
 		time.Sleep(20 * time.Millisecond)
@@ -165,140 +165,77 @@ func watchdog(budget time.Duration) {
 			continue
 		}
 		idx := curIdx.Load()
-		const samples = 40
-		count := map[string]int{}
-		var order []string // innermost-first frames of the deepest complete sample
-		buf := make([]byte, 1<<20)
-		valid := 0
-		for s := 0; s < samples; s++ {
-			n := runtime.Stack(buf, true)
-			dump := string(buf[:n])
-			fs := repoFrames(dump, "goroutine 1 ")
-			// a sample in which the case goroutine shows no repository frame at
-			// all (seen rarely under load) says nothing: it is not counted
-			if len(fs) == 0 {
-				fs = nil
-			}
-			if fs == nil && s < samples-1 {
-				time.Sleep(500 * time.Microsecond)
-				continue
-			}
-			if fs != nil {
-				valid++
-			}
-			seen := map[string]bool{}
-			for _, f := range fs {
-				if !seen[f] {
-					seen[f] = true
-					count[f]++
-				}
-			}
-			if len(fs) > len(order) {
-				order = fs
-			}
-			time.Sleep(500 * time.Microsecond)
+		seq := curSeq.Load()
+		site, n := spinSite(3*time.Second, "main.runCase")
+		if curSeq.Load() != seq || curStart.Load() == 0 {
+			// the case ended while it was being sampled (within seconds of the
+			// budget): it is not "still running"
+			continue
 		}
-		site := "unknown"
-		if valid >= 10 {
-			for _, f := range order { // innermost first
-				if count[f] == valid {
-					site = normSite(f)
-					break
-				}
-			}
-		}
-		if site == "unknown" && os.Getenv("C07_DEV_DEBUG") != "" {
-			fmt.Fprintf(os.Stderr, "WATCHDOG unknown: counts=%v order=%v\nlast dump:\n%s\n", count, order, buf[:runtime.Stack(buf, true)])
+		if os.Getenv("C07_DEV_DEBUG") != "" {
+			fmt.Fprintf(os.Stderr, "WATCHDOG case %d site %s from %d samples\n", idx, site, n)
 		}
 		os.Stdout.WriteString(fmt.Sprintf("T %d %s\n", idx, site))
 		os.Exit(3)
 	}
 }
 
-// allocSite attributes an over-budget case to a repository function: the
-// innermost repository function that is on the stack of at least 90 % of the
-// bytes allocated since the previous snapshot (the owner of the make() sized
-// from the wire, or of the runaway loop / recursion). "diffuse" if none.
-// The heap profile is read in its text form, which carries full-depth stacks
-// (GODEBUG=profstackdepth) with file names.
-type profRec struct {
-	alloc  int64
-	frames []string // repository functions, innermost first
-}
+// allocSite attributes an over-budget case. If the case allocated few, huge
+// objects (average >= 256 KiB, from the exact MemStats counters: a make() sized
+// from the wire) the site is the first repository frame of the heaviest record
+// that appeared in the heap profile since the previous snapshot (allocations
+// that large are always sampled). Otherwise the bytes are the sum of many small
+// allocations (runaway loop or recursion) and the site is "many-small".
+type profSnap map[[32]uintptr]int64
 
-type profSnap map[string]int64
-
-var recHead = regexp.MustCompile(`^\d+: \d+ \[\d+: (\d+)\] @((?: 0x[0-9a-f]+)+)$`)
-var recFrame = regexp.MustCompile(`^#\t0x[0-9a-f]+\t(\S+)\+0x[0-9a-f]+\t+(\S+):\d+$`)
-
-func takeProfile() (map[string]*profRec, profSnap) {
+func takeProfile() ([]runtime.MemProfileRecord, profSnap) {
 	runtime.GC()
 	runtime.GC()
-	var buf bytes.Buffer
-	pprof.Lookup("allocs").WriteTo(&buf, 1)
-	recs := map[string]*profRec{}
+	n, _ := runtime.MemProfile(nil, true)
+	recs := make([]runtime.MemProfileRecord, n+50)
+	n, ok := runtime.MemProfile(recs, true)
+	if !ok {
+		return nil, profSnap{}
+	}
+	recs = recs[:n]
 	snap := profSnap{}
-	var cur *profRec
-	for _, line := range strings.Split(buf.String(), "\n") {
-		if m := recHead.FindStringSubmatch(line); m != nil {
-			n, _ := strconv.ParseInt(m[1], 10, 64)
-			key := m[2]
-			if r, ok := recs[key]; ok {
-				r.alloc += n
-				cur = nil
-			} else {
-				cur = &profRec{alloc: n}
-				recs[key] = cur
-			}
-			snap[key] += n
-			continue
-		}
-		if cur == nil {
-			continue
-		}
-		if m := recFrame.FindStringSubmatch(line); m != nil {
-			if strings.HasPrefix(m[2], repoDir) {
-				cur.frames = append(cur.frames, m[1])
-			}
-		} else if line == "" {
-			cur = nil
-		}
+	for _, r := range recs {
+		snap[r.Stack0] += r.AllocBytes
 	}
 	return recs, snap
 }
 
-func allocSite(prev profSnap) (string, profSnap) {
+func allocSite(prev profSnap, bytes, objects uint64) (string, profSnap) {
+	if objects == 0 || bytes/objects < 256<<10 {
+		return "many-small", prev
+	}
 	recs, snap := takeProfile()
-	var total int64
-	incl := map[string]int64{}
-	var best *profRec
+	var best *runtime.MemProfileRecord
 	var bestDelta int64
-	for key, r := range recs {
-		d := snap[key] - prev[key]
-		if d <= 0 {
-			continue
-		}
-		total += d
-		seen := map[string]bool{}
-		for _, f := range r.frames {
-			if !seen[f] {
-				seen[f] = true
-				incl[f] += d
-			}
-		}
+	for i := range recs {
+		d := snap[recs[i].Stack0] - prev[recs[i].Stack0]
 		if d > bestDelta {
-			bestDelta, best = d, r
+			bestDelta, best = d, &recs[i]
 		}
 	}
 	if best == nil {
-		return "diffuse", snap
+		return "unknown", snap
 	}
-	for _, f := range best.frames { // innermost first
-		if incl[f]*10 >= total*9 {
-			return normSite(f), snap
+	frames := runtime.CallersFrames(best.Stack())
+	first := ""
+	for {
+		f, more := frames.Next()
+		if strings.HasPrefix(f.File, repoDir) {
+			return normSite(f.Function), snap
+		}
+		if first == "" && f.Function != "" && !strings.HasPrefix(f.Function, "runtime.") {
+			first = normSite(f.Function)
+		}
+		if !more {
+			break
 		}
 	}
-	return "diffuse", snap
+	return "outside-repo:" + first, snap
 }
 
 func outcomeClass(in []byte, o outcome) string {
@@ -347,8 +284,9 @@ func workerMain() {
 			fmt.Fprintf(w, "B %d\n", i)
 			w.Flush()
 			runtime.ReadMemStats(&ms)
-			a0 := ms.TotalAlloc
+			a0, m0 := ms.TotalAlloc, ms.Mallocs
 			curIdx.Store(int64(i))
+			curSeq.Add(1)
 			t0 := time.Now()
 			curStart.Store(t0.UnixNano())
 			r := runCase(g.t, in)
@@ -365,7 +303,7 @@ func workerMain() {
 			}
 			if alloc > allocBase+allocPerByte*uint64(len(in)) {
 				var site string
-				site, prof = allocSite(prof)
+				site, prof = allocSite(prof, alloc, ms.Mallocs-m0)
 				fmt.Fprintf(w, "V %d alloc>budget %s %d %d allocated_%d_bytes_for_%d_input_bytes\n", i, site, alloc, ns, alloc, len(in))
 				cls = "alloc>budget:" + cls
 			}
